@@ -9,6 +9,7 @@ An abstract message (= the `msg` part of a case, directly in obs shape) is
     tsig  = None | [keyname, rdata]
     name  = [label bytes...]  (absolute iff the last label is b"")
 """
+import random
 import struct
 
 import dns.edns
@@ -40,6 +41,85 @@ A, NS, CNAME, SOA, PTR, MX, TXT, AAAA, SRV, OPT, RRSIG, TSIG = 1, 2, 5, 6, 12, 1
 SIG = 24
 
 SPECIAL_OPTIONS = sorted(int(k) for k in dns.edns._type_to_class)
+# ... of which the model (MessageM.opt_dec) leaves out REPORTCHANNEL (a name read with the message parser)
+UNMODELLED_OPTIONS = [18]
+
+
+def mk_option(code, data):
+    """the option object for (code, to_wire() octets): the class registered for the code when it accepts the
+    octets and renders them back unchanged, GenericOption otherwise"""
+    data = bytes(data)
+    if int(code) in SPECIAL_OPTIONS and int(code) not in UNMODELLED_OPTIONS:
+        try:
+            o = dns.edns.option_from_wire(code, data, 0, len(data))
+            if bytes(o.to_wire()) == data:
+                return o
+        except Exception:  # noqa
+            pass
+    return dns.edns.GenericOption(code, data)
+
+
+UTF8_GOOD = [b"", b"en", b"mailto:abuse@example.net", "caf\u00e9".encode(), "\u4e2d\u6587".encode(),
+             "\U0001f600".encode(), b"\xef\xbf\xbf", b"\xf4\x8f\xbf\xbf", b"\xed\x9f\xbf", b"\xee\x80\x80",
+             b"\xe0\xa0\x80", b"\xf0\x90\x80\x80", b"a\x00b", b"\xc2\x80"]
+UTF8_BAD = [b"\xff", b"\xc0\x80", b"\xc1\xbf", b"\xed\xa0\x80", b"\xed\xbf\xbf", b"\xf4\x90\x80\x80", b"\xf5\x80\x80\x80",
+            b"\xe0\x9f\xbf", b"\xf0\x8f\xbf\xbf", b"\xc3", b"\xe2\x82", b"\xf0\x9f\x98", b"\x80", b"a\xbf", b"\xc3\x28",
+            b"\xe2\x28\xa1", b"\xe2\x82\x28", b"\xf0\x28\x8c\xbc", b"\xf0\x90\x28\xbc", b"\xf0\x90\x8c\x28", b"\xf8\x88\x80\x80\x80"]
+
+
+def gen_special_option(rng, valid=True):
+    """(code, octets) for an option code with a class of its own; valid=False: octets the class must reject
+    (or, for EDE/ECS, accepts in a non-normal spelling)"""
+    code = rng.choice([3, 8, 10, 15, 22, 23, 24, 25])
+    rb = lambda n: bytes(rng.randrange(256) for _ in range(n))
+    if code == 3:
+        return [3, rb(rng.choice([0, 1, 5, 20]))]
+    if code == 10:
+        if valid:
+            return [10, rb(rng.choice([8, 16, 17, 24, 40]))]
+        return [10, rb(rng.choice([0, 7, 9, 15, 41, 64]))]
+    if code in (22, 23, 24, 25):
+        return [code, rng.choice(UTF8_GOOD if valid else UTF8_BAD)]
+    if code == 15:
+        info = struct.pack("!H", rng.choice([0, 1, 18, 24, 49, 65535, rng.randrange(65536)]))
+        if valid:
+            t = rng.choice(UTF8_GOOD)
+            while t.endswith(b"\x00"):
+                t = t[:-1]
+            return [15, info + t]
+        r = rng.random()
+        if r < 0.3:
+            return [15, rng.choice([b"", b"\x00"])]
+        if r < 0.65:
+            return [15, info + rng.choice(UTF8_GOOD) + b"\x00" * rng.choice([1, 2, 5])]
+        return [15, info + rng.choice(UTF8_BAD) + b"\x00" * rng.choice([0, 1])]
+    # ECS
+    family = rng.choice([1, 2])
+    bits = 32 if family == 1 else 128
+    src = rng.choice([0, 1, 7, 8, 9, 24, 31, 32, 56, 64, 127, 128, rng.randrange(129)])
+    src = min(src, bits)
+    scope = rng.choice([0, 0, src, rng.randrange(bits + 1)])
+    n = (src + 7) // 8
+    prefix = bytearray(rb(n))
+    if src % 8 and valid:
+        prefix[-1] &= (0xFF << (8 - src % 8)) & 0xFF
+    if valid:
+        return [8, struct.pack("!HBB", family, src, scope) + bytes(prefix)]
+    r = rng.random()
+    if r < 0.2:
+        if n:
+            prefix[-1] |= 1      # accepted, but stored masked
+        return [8, struct.pack("!HBB", family, src, scope) + bytes(prefix)]
+    if r < 0.35:
+        return [8, struct.pack("!HBB", rng.choice([0, 3, 256, 65535]), src, scope) + bytes(prefix)]
+    if r < 0.5:
+        return [8, struct.pack("!HBB", family, src, scope) + bytes(prefix) + rb(rng.choice([1, 3]))]
+    if r < 0.65:
+        return [8, (struct.pack("!HBB", family, src, scope) + bytes(prefix))[:-1]]
+    if r < 0.8:
+        s2 = rng.choice([bits + 1, 255, 129, 33])
+        return [8, struct.pack("!HBB", family, s2, scope) + rb((s2 + 7) // 8)]
+    return [8, struct.pack("!HBB", family, src, rng.choice([bits + 1, 255])) + bytes(prefix)]
 
 # further types whose reader is a plain field list in the model (MessageM.schema_of):
 # kind: "txt" | list of fields: int n = n fixed octets, "U" = uncompressed name, "R" = the rest, "C8" = counted string
@@ -297,7 +377,7 @@ def mk_message(am, pad=0, request_payload=None):
         m.sections[i] = [mk_rrset(rs) for rs in secs[i]]
     if opt is not None:
         ttl, payload, options = opt
-        ol = [dns.edns.GenericOption(c, bytes(d)) for c, d in options]
+        ol = [mk_option(c, d) for c, d in options]
         m.use_edns(edns=(ttl >> 16) & 0xFF, ednsflags=ttl, payload=payload, options=ol, pad=pad,
                    request_payload=request_payload if request_payload is not None else 0)
         assert m.opt.ttl == ttl
@@ -470,7 +550,7 @@ def modelled_fast(c, t):
 
 
 def _patched_get_option_class(otype):
-    if _touched[0] is not None and int(otype) in SPECIAL_OPTIONS:
+    if _touched[0] is not None and int(otype) in UNMODELLED_OPTIONS:
         _touched[0] = True
         raise Unmodelled(f"option {otype}")
     return _orig_get_option_class(otype)
@@ -535,7 +615,7 @@ def run_rseq(origin, mid, flags, max_size, ops):
                 r.release_reserved()
             elif op[0] == 12:
                 ttl, payload, options = op[1]
-                r.add_opt(dns.renderer._make_opt(ttl, payload, [dns.edns.GenericOption(c, bytes(d)) for c, d in options]),
+                r.add_opt(dns.renderer._make_opt(ttl, payload, [mk_option(c, d) for c, d in options]),
                           op[2], op[3], op[4])
             elif op[0] == 13:
                 r.write_header()
@@ -973,6 +1053,12 @@ def gen_opt(rng):
             continue
         n = rng.choice([0, 1, 8, 30, rng.randrange(64)])
         options.append([code, bytes(rng.randrange(256) for _ in range(n))])
+    # options whose code has a class of its own (NSID, ECS, COOKIE, EDE, ...), in the octets that class renders;
+    # drawn from a derived generator so that the main stream is the same with and without them
+    r2 = random.Random(ttl * 65536 + payload + 7919 * len(options))
+    if r2.random() < 0.4:
+        for _ in range(r2.choice([1, 1, 2, 3])):
+            options.insert(r2.randrange(len(options) + 1), gen_special_option(r2, valid=True))
     return [ttl, payload, options]
 
 
